@@ -14,6 +14,7 @@ Decided on the output grammar with provenance (Engine A), anchored by role in th
      key order (no adapter); with C11's density contract position == index.
 The construction of the group map from the module's variables (key = group, element fields from one variable) is decided by the
 MIR rules of C11, which are evaluated in the same run."""
+import re as _re
 import engine_ogp as E
 from conc import Eval, V, Diverge, Unbound
 from rules.c02 import hole_after, collect_scrutinees
@@ -73,11 +74,25 @@ def run(rep):
     if not hits:
         return
     q, gt = hits[0]
+    stars = []
+    E.walk(ogp.summaries[q], lambda x: stars.append(x) if x[0] == 'star' and E.find_templates(x[3], lambda y: y is gt) else None)
+    if not stars:
+        # the per-group items are built by a helper: the repetition over the group map is in the function calling it (the one closest to the
+        # helper, i.e. with the smallest call graph, in whose summary the helper is inlined)
+        cands = []
+        for q2, v2 in ogp.summaries.items():
+            ss = []
+            E.walk(v2, lambda x: ss.append(x) if x[0] == 'star' and E.find_templates(x[3], lambda y: y[1] == gt[1] and y[3] == gt[3]) else None)
+            if ss and gt[3] in crate.call_graph()[q2]:
+                cands.append((len(crate.call_graph()[q2]), q2))
+        if cands:
+            q = sorted(cands)[0][1]
+            gts = E.find_templates(ogp.summaries[q], lambda y: y[1] == gt[1] and y[3] == gt[3])
+            gt = gts[0]
+            E.walk(ogp.summaries[q], lambda x: stars.append(x) if x[0] == 'star' and E.find_templates(x[3], lambda y: y is gt) else None)
     f = crate.fns[q]
     where = f"{crate.relfile(f['file'])} fn {f['name']}"
     summ = ogp.summaries[q]
-    stars = []
-    E.walk(summ, lambda x: stars.append(x) if x[0] == 'star' and E.find_templates(x[3], lambda y: y is gt) else None)
     if len(stars) != 1:
         rep.bad('C04.anchor', 'group-repetition', where, f'{len(stars)} repetitions produce the per-group items', undecided=True)
         return
@@ -211,7 +226,8 @@ def run(rep):
     rep.check(len(mod_ts) == 1, 'C04.anchor', 'module-template', where, f'{len(mod_ts)} `pub mod bind_groups` templates', ok_detail='one')
     if mod_ts:
         mt = mod_ts[0]
-        mtxt = E.tmpl_text(mt)
+        import engine_skel as K
+        mtxt = K.static_expand(ogp, mt)      # fixed parts (trait, impls, helper-built items) expanded wherever the source builds them
         KEYS = ('mcall', M, 'keys', [])
 
         def key_star(pred, label):
@@ -249,11 +265,10 @@ def run(rep):
             # used once in BindGroups::set (with self.) and once in set_bind_groups
             n_self = mtxt.count('#( self . #')
             rep.check(n_self == 1 and 'pub fn set < P : SetBindGroup > ( & self , pass : & mut P ) { #( self . #' in mtxt, 'C04.R5.set-once', 'BindGroups-set', where, 'BindGroups::set does not call self.<each group>.set(pass) exactly once', ok_detail='one repetition of self.bind_group<K>.set(pass)')
-            sb = E.find_templates(mt, lambda t: 'pub fn set_bind_groups <' in E.tmpl_text(t))
-            okk = len(sb) == 1 and E.tmpl_text(sb[0]).count('#(') == 2 and E.tmpl_text(sb[0]).rstrip().endswith(')* }')
+            sbm = _re.search(r'pub fn set_bind_groups < (\w+) : bind_groups :: SetBindGroup > \( (\w+) : & mut (\w+) , #\( #(\w+) \),\*(?: ,)? \) \{ #\( #(\w+) \)\* \}', mtxt)
+            okk = sbm is not None and sbm.group(1) == sbm.group(3) and mtxt.count('pub fn set_bind_groups <') == 1
             rep.check(okk, 'C04.R5.set-once', 'set_bind_groups-body', where, 'set_bind_groups does not consist of one parameter list and one list of set calls', ok_detail='one parameter per group, one set call per group')
         # ---- R6 fixed impls -----------------------------------------------------------------------------------------------------------
-        import re as _re
         for ty in ('ComputePass', 'RenderPass', 'RenderBundleEncoder'):
             m_ = _re.search(r"impl SetBindGroup for wgpu :: " + ty + r" <'_ > \{ fn set_bind_group \( & mut self , (\w+) : u32 , (\w+) : & wgpu :: BindGroup , (\w+) : & \[ wgpu :: DynamicOffset \] ,? \) "
                             r"\{ self \. set_bind_group \( (\w+) , (\w+) , (\w+) \) ;? \} \}", mtxt)
